@@ -93,6 +93,21 @@ class PresGen:
             elif shape == "newtype":
                 p = self.mk("newtype", fields=[Field(None, prim("u8"), as_=ft.rs())])
                 members["as"] = p
+            # `as = "F"` together with `inline`: what an inlined field of type F gives
+            if inlineable and shape in ("named", "newtype"):
+                if shape == "named":
+                    p = self.mk("named", fields=[Field("own", prim("i32")), Field("f", prim("u8"), as_=ft.rs(), inline=True)])
+                else:
+                    p = self.mk("newtype", fields=[Field(None, prim("u8"), as_=ft.rs(), inline=True)])
+                members["as-inline"] = p
+            nv_rep = None
+            if inlineable and r.random() < 0.5:
+                # the same on the field of a newtype variant, in every representation
+                nv_rep = r.choice(["external", "internal", "adjacent", "untagged"])
+                reps = {"external": {}, "internal": {"tag": "t"}, "adjacent": {"tag": "t", "content": "c"}, "untagged": {"untagged": True}}[nv_rep]
+                members["nv-inline-twin"] = self.mk("enum", variants=[Variant("Va", "newtype", [Field(None, ft, inline=True)]), Variant("Vb", "unit")], **reps)
+                members["nv-as-inline"] = self.mk("enum", variants=[Variant("Va", "newtype", [Field(None, prim("u8"), as_=ft.rs(), inline=True)]),
+                                                                    Variant("Vb", "unit")], **reps)
             # variant-level `as`: the variant is what it would be if it held one field of type F
             if r.random() < 0.5:
                 rep = r.choice(["external", "internal", "adjacent", "untagged"])
@@ -128,7 +143,7 @@ class PresGen:
                 members["inline-of-flat"] = q
             self.groups.append({"id": gid, "ftype": ft.rs(), "kind": kind, "shape": shape, "target": it.id,
                                 "target_tags": it.feature_tags(), "members": {k: v.id for k, v in members.items()},
-                                "variant_rep": variant_rep})
+                                "variant_rep": variant_rep, "nv_rep": nv_rep})
         self.g.make_entries(per_generic=1)
         # the field type itself must be registered with the arguments the group uses
         return self.g
